@@ -414,7 +414,23 @@ VariablesStack::findXObject(
                 const PushAndPopContextMarker   theContextMarkerPushPop(executionContext);
 #endif
 
-                theNewValue = var->getValue(executionContext, doc);
+                {
+                    // The variable is evaluated now, at its first use, but
+                    // not in the dynamic context of that use: the current
+                    // node list contains just the root node (XSLT 1.0,
+                    // section 11.4).
+                    typedef StylesheetExecutionContext::BorrowReturnMutableNodeRefList  BorrowReturnMutableNodeRefList;
+
+                    BorrowReturnMutableNodeRefList  theRootNodeList(executionContext);
+
+                    theRootNodeList->addNode(doc);
+
+                    const XPathExecutionContext::ContextNodeListPushAndPop  theContextNodeListPushAndPop(
+                                executionContext,
+                                *theRootNodeList);
+
+                    theNewValue = var->getValue(executionContext, doc);
+                }
                 assert(theNewValue.null() == false);
 
 #if !defined(XALAN_RECURSIVE_STYLESHEET_EXECUTION)
